@@ -5,7 +5,7 @@ import CstModel.Driver.RedArea
 import CstModel.Driver.TextArea
 import CstModel.Driver.SerdeArea
 import CstModel.Driver.DeriveArea
-import CstModel.Driver.DataArea
+import CstModel.Driver.MemArea
 open Cst Cst.Drv
 
 def sessionStep (s : DState) : List String → Option (DState × String)
@@ -58,7 +58,11 @@ def stepLine (s : DState) (line : String) : DState × String :=
                   | some r => r
                   | none =>
                     match concStep s ws with
-                    | some r => r
+                    | some (s1, o1) =>
+                      -- the happens-before model follows the same events
+                      (match memStep s1 ws with
+                       | some (s2, o2) => (s2, if o1 == "ok" then o2 else o1)
+                       | none => (s1, o1))
                     | none =>
                       match dataStep s ws with
                       | some r => r
